@@ -111,7 +111,7 @@ func bundleFile(c *core.Ctx) ([]byte, string) {
 }
 
 func extraAttrs(c *core.Ctx, pub ed25519.PublicKey) integrityblock.SignatureAttributesMap {
-	names := []string{"a", "zz", "ed25519PublicKeyX", "e", "alongerattributenamethatisover23bytes", "k1"}
+	names := []string{"a", "zz", "ed25519PublicKeyX", "e", "alongerattributenamethatisover23bytes", "k1", "cl\u00e9", "\u7f72\u540d", "x\U0001F4E6"}
 	n := c.Int("attrs.n", 0, 4)
 	perm := c.Perm("attrs.perm", len(names))
 	type kv struct {
